@@ -65,6 +65,10 @@ func replayHO(idx int, c *MCase, mode string, out *[]Mismatch) {
 		ctls[i] = &Ctl{}
 		srcs[i] = ctls[i].Observable(mode, nil)
 	}
+	if j := c.ISync.J; j > 0 {
+		n := Notif{K: c.ISync.K, V: float64(j + 1)}
+		ctls[j].OnSub = func(cs *ctlSub) { emitMulti(cs, j+1, 0, n) }
+	}
 	o, err := BuildHO(c.M.G, srcs[0], srcs[1:])
 	if err != nil {
 		add(0, "catalogue", err.Error())
@@ -192,6 +196,10 @@ func replayHO(idx int, c *MCase, mode string, out *[]Mismatch) {
 		}
 		for k := range ctls {
 			s, t := ctls[k].counts()
+			if c.ISync.J > 0 && k != c.ISync.J && k > 0 && s == 0 && t == 0 && st.Exp.Torn[k] == 1 {
+				// an inner source the operator no longer needed after the synchronous end of another one was never subscribed at all
+				continue
+			}
 			if s != st.Exp.Subs[k] {
 				add(i, "sub", fmt.Sprintf("source %d subscribed %d times, expected %d", k+1, s, st.Exp.Subs[k]))
 			}
